@@ -95,7 +95,24 @@ def delayout_fixed(text):
             out[-1] += line[6:]
         else:
             out.append(line[:5].strip() + " " + line[6:])
-    return out
+    stmts = []
+    for l in out:
+        part, q = "", None          # split at ';' outside character context
+        for c in l:
+            if q:
+                part += c
+                if c == q:
+                    q = None
+            elif c in "'\"":
+                q = c
+                part += c
+            elif c == ";":
+                stmts.append(part)
+                part = ""
+            else:
+                part += c
+        stmts.append(part)
+    return [s for s in stmts if s.strip()]
 
 def toks(s):
     return [t for _, t in lexer.lex_line(s)]
@@ -113,7 +130,7 @@ def t23(n=600):
         got = [toks(s) for s in delayout_free(lay.text)]
         assert [x for x in got] == [x for x in want], (seed, "free", next((a, b) for a, b in zip(got, want) if a != b))
         fo = layout.FixedOpts(wrap=rnd.choice([72, 50, 30]), comments=20, cont_comments=30, blank_lines=10, extra_indent=True,
-                              lit_cross=80, lit_pad=40, trail_blanks=0, names=gen.ALL_NAMES, excl={"no_blank_at_col72"})
+                              lit_cross=80, lit_pad=40, trail_blanks=0, semis=15, names=gen.ALL_NAMES, excl={"no_blank_at_col72"})
         lay = layout.fixed_layout(flat, rnd, fo)
         got = [toks(s) for s in delayout_fixed(lay.text)]
         assert got == want, (seed, "fixed", next((a, b) for a, b in zip(got, want) if a != b))
